@@ -4,6 +4,7 @@ package worker
 
 import (
 	"fmt"
+	"runtime/debug"
 	"sort"
 	"sync"
 	"time"
@@ -127,7 +128,7 @@ func RunCase(c Case, keepLogs bool) (out Outcome) {
 			if e, ok := p.(harnessErr); ok {
 				out.Err = e.err.Error()
 			} else {
-				panic(p)
+				out.Err = fmt.Sprintf("scenario panicked: %v\n%s", p, debug.Stack())
 			}
 		}
 		for _, in := range s.in {
@@ -182,7 +183,11 @@ func Gen(job appsys.Job) []Case {
 				n = g
 			}
 			for i := 0; i < n; i++ {
-				cs = append(cs, Case{Engine: "appsys", Prop: job.Prop, Kind: k, Seed: r.U64() >> 1})
+				c := Case{Engine: "appsys", Prop: job.Prop, Kind: k, Seed: r.U64() >> 1}
+				if job.Tier == "thorough" {
+					c.P = map[string]int{"thorough": 1}
+				}
+				cs = append(cs, c)
 			}
 		}
 	}
